@@ -281,13 +281,16 @@ struct Conn {
     err: bool,
     /// some write returned EWOULDBLOCK since the flag was last cleared
     blocked: bool,
+    /// consecutive pump rounds with output pending and not one byte accepted by the kernel: the whole chain
+    /// behind this socket (sozu's buffers included) is full
+    stuck_rounds: u32,
 }
 
 impl Conn {
     fn new(tcp: TcpStream, tls: Option<rustls::ClientConnection>, frag: usize) -> Conn {
         let _ = tcp.set_nodelay(true);
         let _ = tcp.set_nonblocking(true);
-        Conn { tcp, tls, out: vec![], out_pos: 0, inb: vec![], frag: if frag == 0 { vec![] } else { sizes_cycle(frag) }, writes: 0, eof: false, err: false, blocked: false }
+        Conn { tcp, tls, out: vec![], out_pos: 0, inb: vec![], frag: if frag == 0 { vec![] } else { sizes_cycle(frag) }, writes: 0, eof: false, err: false, blocked: false, stuck_rounds: 0 }
     }
 
     fn queue(&mut self, b: &[u8]) {
@@ -329,6 +332,8 @@ impl Conn {
         }
         let mut pfd = libc::pollfd { fd: self.tcp.as_raw_fd(), events, revents: 0 };
         unsafe { libc::poll(&mut pfd, 1, TICK_MS) };
+        let had_pending = self.pending();
+        let mut wrote_any = false;
         if pfd.revents & (libc::POLLOUT | libc::POLLERR | libc::POLLHUP) != 0 || (self.pending() && pfd.revents == 0 && events & libc::POLLOUT != 0) {
             for _ in 0..32 {
                 if !self.pending() {
@@ -352,9 +357,8 @@ impl Conn {
                 };
                 match r {
                     Ok(0) => break,
-                    Ok(_) => {}
+                    Ok(_) => wrote_any = true,
                     Err(e) if e.kind() == std::io::ErrorKind::WouldBlock => {
-                        self.blocked = true;
                         break;
                     }
                     Err(e) if e.kind() == std::io::ErrorKind::Interrupted => {}
@@ -364,6 +368,14 @@ impl Conn {
                     }
                 }
             }
+        }
+        if had_pending && !wrote_any {
+            self.stuck_rounds += 1;
+            if self.stuck_rounds >= 5 {
+                self.blocked = true;
+            }
+        } else {
+            self.stuck_rounds = 0;
         }
         if want_read && !self.eof && pfd.revents & (libc::POLLIN | libc::POLLHUP | libc::POLLERR) != 0 {
             let mut buf = [0u8; 32768];
